@@ -58,12 +58,14 @@ def run_case(kind, q):
         frame = (q["bg"] + q["contrast"] * masks.circular(centerX=pos[1], centerY=pos[0], imageSizeX=shape[1],
                                                          imageSizeY=shape[0], radius=radius, antialiased=True)).astype(np.float32)
         start = np.array(q["start"])
-        runs = [("fast", impl.run_fast, start), ("full", impl.run_full, start)]
+        runs = [("fast", impl.run_fast, start, False), ("full", impl.run_full, start, False)]
         if "start_full" in q:
             # the full-frame method correlates the whole frame: its capture range is the whole search window, up to one pixel
-            # inside its border
-            runs.append(("full", impl.run_full, np.array(q["start_full"])))
-        for pipeline, runner, st_ in runs:
+            # inside its border.  "Captured" means that the maximum of the correlation inside the window is not ON the border of
+            # the window (where there is no neighbourhood to take a centre of mass of): such a start carries the 1 px clause
+            # only (false alarm of soak 8, DESIGN 13.17)
+            runs.append(("full", impl.run_full, np.array(q["start_full"]), True))
+        for pipeline, runner, st_, edge in runs:
             try:
                 outs = runner(frame, pattern, st_[np.newaxis])
             except Exception as e:
@@ -73,6 +75,8 @@ def run_case(kind, q):
             if np.abs(cen - pos).max() > 1.0 + 1e-6:
                 msgs.append(f"{pipeline} {q['pattern']['kind']} r={radius} contrast {q['contrast']:.1f}: true centre "
                             f"{pos.tolist()}, start {st_.tolist()}: integer centre {cen.tolist()} off by more than 1 px")
+            elif edge and (np.any(cen - (st_ - c) <= 0) or np.any(cen - (st_ - c) >= 2 * c - 1)):
+                pass      # the maximum lies on the border of the search window: not captured, no refinement to speak of
             elif np.abs(ref - pos).max() > 0.5 + 1e-6:
                 msgs.append(f"{pipeline} {q['pattern']['kind']} r={radius} contrast {q['contrast']:.1f}: true centre "
                             f"{pos.tolist()}, start {st_.tolist()}: refined {ref.tolist()} off by {np.abs(ref - pos).max():.3f} px")
